@@ -226,6 +226,21 @@ def run(ctx):
     for cfgkey, (ok, why, ret_) in sorted(seen_cfg.items(), key=lambda kv: str(kv[0])):
         ctx.ob("R-SIB", "C10.3", bf, f"configuration pool={cfgkey[0]}, vectorised={cfgkey[1]}, chunked={cfgkey[2]}: split / map / combine are order-preserving and cover the whole batch", ok, f"`{src(ret_)[:110] if ret_ is not None else None}`: {why}")
     ctx.ob("R-SIB", "C10.3", bf, "all six configurations have their own branch", len(seen_cfg) == 6, f"{sorted(map(str, seen_cfg))}")
+    # the number of sections handed to np.array_split is a number: a user-supplied pool whose size cannot be determined
+    # leaves n_pool None (Model.n_pool defaults to None and configure_pool keeps it so), and np.array_split(x, None) raises -
+    # the split must fall back to a positive count, or be guarded, or no caller may pass None
+    from ..rules import nonnull as _nn10
+
+    n_sec = 0
+    for nid_, c_ in fa.find_expr(lambda e_: isinstance(e_, ast.Call) and call_name(e_) in ("np.array_split", "numpy.array_split") and len(norm_args(e_)) == 2):
+        sec_ = norm_args(c_)[1]
+        n_sec += 1
+        if isinstance(sec_, ast.Name):
+            mb_, why_ = _nn10.may_be_none(prog, bf, fa, nid_, sec_)
+        else:
+            mb_, why_ = False, ""
+        ctx.ob("R-SIB", "C10.3", bf, "the number of sections of np.array_split cannot be None (a user pool of unknown size leaves n_pool None)", not mb_, f"`{src(c_)[:60]}`" + (f": {why_[:200]}" if mb_ else ""), node=c_)
+    ctx.require(n_sec >= 1, "np.array_split over the pool size not found in batch_evaluate_function")
     bad = [src(n) for n in walk_no_nested(bf.node) if isinstance(n, ast.Attribute) and n.attr in ("imap_unordered", "map_async", "apply_async", "imap", "starmap_async", "apply")]
     ctx.ob("R-SIB", "C10.3", bf, "no unordered / asynchronous pool primitive is used", not bad, f"{bad}")
     wf = fa.find(lambda s: isinstance(s, ast.Assign) and isinstance(s.targets[0], ast.Name) and s.targets[0].id == "func_wrapper")
@@ -318,6 +333,18 @@ def _bef_args(call):
     return out
 
 
+def _sections_ok(e):
+    """number of sections of np.array_split: the pool size, possibly with a positive fallback for an unknown size"""
+    t = src(e)
+    if t == "n_pool":
+        return True
+    if isinstance(e, ast.BoolOp) and isinstance(e.op, ast.Or) and len(e.values) == 2 and src(e.values[0]) == "n_pool" and isinstance(e.values[1], ast.Constant) and isinstance(e.values[1].value, int) and e.values[1].value >= 1:
+        return True
+    if isinstance(e, ast.IfExp) and src(e.body) == "n_pool" and src(e.test) in ("n_pool", "n_pool is not None") and isinstance(e.orelse, ast.Constant) and isinstance(e.orelse.value, int) and e.orelse.value >= 1:
+        return True
+    return False
+
+
 def order_preserving(e, has_pool):
     """Structural grammar:  combine := np.concatenate(M) | np.array(M).flatten() | F(x)
        M := list(M) | map(F, S) | pool.map(F, S) | [F(v) for v in S]
@@ -329,7 +356,7 @@ def order_preserving(e, has_pool):
             return True, "x"
         if isinstance(n, ast.Call) and call_name(n) == "array_split_chunksize" and [src(a) for a in norm_args(n)] == ["x", "chunksize"]:
             return True, "chunks"
-        if isinstance(n, ast.Call) and call_name(n) in ("np.array_split", "numpy.array_split") and [src(a) for a in norm_args(n)] == ["x", "n_pool"] and len(norm_args(n)) == len(n.args) + len(n.keywords):
+        if isinstance(n, ast.Call) and call_name(n) in ("np.array_split", "numpy.array_split") and len(norm_args(n)) == 2 and src(norm_args(n)[0]) == "x" and _sections_ok(norm_args(n)[1]) and len(norm_args(n)) == len(n.args) + len(n.keywords):
             return True, "split"
         return False, f"`{src(n)}` is not a recognised order-preserving split of x"
 
@@ -365,13 +392,14 @@ def order_preserving(e, has_pool):
 
 
 CLAIM = {
-    "text": "Decides the structural conditions under which batch evaluation equals pointwise evaluation in order and is counted once: the evaluation counter is written only by the two evaluators (+= batch size, exactly once on every path) and the resume hook; the functions handed to the batch evaluator never touch it; the user's log_likelihood is called (or passed as a value) only inside Model and the pool wrapper; unit-hypercube batches are mapped by from_unit_hypercube exactly when unit_hypercube is true and the mapped batch is what is evaluated; each of the six pool x vectorised x chunksize branches of batch_evaluate_function matches a grammar of order-preserving split (array_split / chunks / iteration), map (map / pool.map / comprehension) and combine (concatenate / array().flatten()) over the whole batch, with no unordered or async pool primitive; the function / pool-wrapper / vectorisation-flag / probe table is consistent for likelihood, prior and unit-hypercube prior. The vectorisation probe that licenses the batch path compares batch and pointwise values at round-off level: its tolerances are literals <= 1e-12 or a small multiple of the dtype's eps, not re-bound, and no caller loosens them (C10.5). Every path through a counting evaluator counts its points by exactly one increment or one delegation to the sibling evaluator, never both (C10.1). A final conversion of the batch results keeps the function's own dtype unless the caller asks for one (C10.3). The three batch wrappers return batch_evaluate_function(...) itself (dtype cast only; no clip, no nan_to_num with its default +/-inf replacement, no masked rewrite of non-NaN entries) (C10.4). The slice form of the chunking still yields one (empty) chunk for an empty batch.",
+    "text": "Decides the structural conditions under which batch evaluation equals pointwise evaluation in order and is counted once: the evaluation counter is written only by the two evaluators (+= batch size, exactly once on every path) and the resume hook; the functions handed to the batch evaluator never touch it; the user's log_likelihood is called (or passed as a value) only inside Model and the pool wrapper; unit-hypercube batches are mapped by from_unit_hypercube exactly when unit_hypercube is true and the mapped batch is what is evaluated; each of the six pool x vectorised x chunksize branches of batch_evaluate_function matches a grammar of order-preserving split (array_split / chunks / iteration), map (map / pool.map / comprehension) and combine (concatenate / array().flatten()) over the whole batch, with no unordered or async pool primitive; the function / pool-wrapper / vectorisation-flag / probe table is consistent for likelihood, prior and unit-hypercube prior. The vectorisation probe that licenses the batch path compares batch and pointwise values at round-off level: its tolerances are literals <= 1e-12 or a small multiple of the dtype's eps, not re-bound, and no caller loosens them (C10.5). Every path through a counting evaluator counts its points by exactly one increment or one delegation to the sibling evaluator, never both (C10.1). A final conversion of the batch results keeps the function's own dtype unless the caller asks for one (C10.3). The three batch wrappers return batch_evaluate_function(...) itself (dtype cast only; no clip, no nan_to_num with its default +/-inf replacement, no masked rewrite of non-NaN entries) (C10.4). The slice form of the chunking still yields one (empty) chunk for an empty batch. The number of sections handed to np.array_split over the pool size cannot be None (a user-supplied pool of unknown size leaves n_pool None): found violated on the pinned tree for the parallel vectorised prior and repaired.",
     "note": "Trusts the ordering guarantees of pool.map, map, np.array_split and np.concatenate. Value equality of a user's vectorised and pointwise likelihood, remainder arithmetic of array_split over all (n, chunksize) and real pool scheduling are not decided.",
 }
 
 _MO = "nessai/model.py"
 _MPF = "nessai/utils/multiprocessing.py"
 MUTANTS = [
+    {"id": "sections-none-for-unknown-pool", "file": "nessai/utils/multiprocessing.py", "old": "np.array_split(x, n_pool or 1)", "new": "np.array_split(x, n_pool)", "expect": "number of sections"},
     {"id": "likelihood-clipped-on-return", "file": "nessai/model.py", "old": "        return log_likelihood.astype(config.livepoints.logl_dtype)", "new": "        return np.nan_to_num(log_likelihood.astype(config.livepoints.logl_dtype))", "expect": "C10.4"},
     {"id": "double-count", "file": _MPF, "old": "    return _model.log_likelihood(x)\n", "new": "    _model.likelihood_evaluations += x.size\n    return _model.log_likelihood(x)\n", "expect": "likelihood_evaluations is written only"},
     {"id": "count-per-call", "file": _MO, "old": "        self.likelihood_evaluations += x.size\n        self.likelihood_evaluation_time", "new": "        self.likelihood_evaluations += 1\n        self.likelihood_evaluation_time", "expect": "counter grows by the number of points"},
